@@ -37,6 +37,7 @@ def cz(n):
     assert -2 ** 61 <= q < 2 ** 61
     return "(zi %d%%uint63 %d%%uint63)" % (q + 2 ** 61, r)
 
+
 TDMS_EPOCH_US = -2082844800 * 10 ** 6      # 1904-01-01 as a datetime64[us] integer
 EPOCH_S = -2082844800
 TWO64 = 2 ** 64
@@ -244,14 +245,14 @@ def conv_fractions(run, rng):
         if m == 1000:
             ks = range(1, 1000)
         else:
-            n = run.pick(1200, 30000)
+            n = run.pick(1200, 15000)
             ks = set(rng.randrange(1, m) for _ in range(n)) | set(range(1, 40)) | set(range(m - 40, m))
         for k in ks:
             base = ceil_div(k * TWO64, m)
             for dl in deltas:
                 fs.add(base + dl)
             fs.add(k * TWO64 // m)
-    for _ in range(run.pick(2000, 50000)):
+    for _ in range(run.pick(2000, 20000)):
         fs.add(rng.randrange(TWO64))
     return sorted(f for f in fs if 0 <= f < TWO64)
 
@@ -446,51 +447,97 @@ def random_datetimes(rng, n):
     return out
 
 
+def be_timestamp_file(pairs, prop):
+    """A file of one big-endian segment (TdmsWriter only writes little-endian): channel /'g'/'r' holding the
+    raw timestamps `pairs` = [(seconds, fractions)], with a timestamp property t_raw = prop."""
+    def s(x):
+        b = x.encode()
+        return struct.pack(">I", len(b)) + b
+    meta = struct.pack(">I", 1) + s("/'g'/'r'")
+    meta += struct.pack(">IIIQ", 0x14, 0x44, 1, len(pairs))
+    meta += struct.pack(">I", 1) + s("t_raw") + struct.pack(">I", 0x44) + struct.pack(">qQ", prop[0], prop[1])
+    data = b"".join(struct.pack(">qQ", a, b) for a, b in pairs)
+    toc = (1 << 1) | (1 << 2) | (1 << 3) | (1 << 6)     # metadata, new object list, raw data, big endian
+    lead = b"TDSm" + struct.pack("<l", toc) + struct.pack(">lQQ", 4713, len(meta) + len(data), len(meta))
+    return lead + meta + data
+
+
+def check_be_file(content, pairs, prop):
+    rf = TdmsFile.read(io.BytesIO(content), raw_timestamps=True)
+    rr = rf["g"]["r"][:]
+    got = [(int(a), int(b)) for a, b in zip(rr.seconds, rr.second_fractions)]
+    if got != pairs:
+        return ("raw channel (big-endian source)", got[:2], pairs[:2])
+    rp = rf["g"]["r"].properties.get("t_raw")
+    if not isinstance(rp, TdmsTimestamp) or (int(rp.seconds), int(rp.second_fractions)) != tuple(prop):
+        return ("raw property (big-endian source)", repr(rp))
+    conv = TdmsFile.read(io.BytesIO(content))["g"]["r"][:]
+    want = [int(TdmsTimestamp(a, b).as_datetime64("us").astype("int64")) for a, b in pairs]
+    if conv.dtype != np.dtype("datetime64[us]") or [int(x) for x in conv.astype("int64")] != want:
+        return ("converted channel (big-endian source)", str(conv[:2]))
+    return None
+
+
 def end_to_end(run, rng, nfiles):
     for k in range(nfiles):
-        run.cov["evaluations"] += 1
-        run.count("end_to_end_files")
         n = rng.choice([1, 2, 3, 7, 50])
-        ds = random_datetimes(rng, n)
-        data = np.array(ds, dtype="int64").view("datetime64[us]")
-        pd = random_datetimes(rng, 3)
-        # property given as datetime64, as a finer-free datetime64[us] scalar and as datetime.datetime
-        py_us = rng.randrange(0, 4 * 10 ** 9 * 10 ** 6) + TDMS_EPOCH_US
-        py_dt = datetime.datetime(1970, 1, 1) + datetime.timedelta(microseconds=py_us)
-        props_root = {"t_root": np.datetime64(pd[0], "us")}
-        props_chan = {"t_chan": np.datetime64(pd[1], "us"), "t_py": py_dt}
-        # raw timestamps with arbitrary fractions (not on the microsecond grid)
-        raw = np.zeros(n, dtype=[("second_fractions", "<u8"), ("seconds", "<i8")])
-        raw["second_fractions"] = np.array([rng.randrange(TWO64) for _ in range(n)], dtype=np.uint64)
-        raw["seconds"] = np.array([rng.randrange(-2 ** 40, 2 ** 40) for _ in range(n)], dtype=np.int64)
-        raw_prop = TdmsTimestamp(rng.randrange(-2 ** 40, 2 ** 40), rng.randrange(TWO64))
-        case = {"op": "e2e", "data": ds, "props": pd, "py_us": py_us,
-                "raw": [[int(s), int(f)] for s, f in zip(raw["seconds"], raw["second_fractions"])],
-                "raw_prop": [raw_prop.seconds, raw_prop.second_fractions]}
-        try:
-            buf = io.BytesIO()
-            with TdmsWriter(buf) as w:
-                w.write_segment([RootObject(props_root), GroupObject("g", {"t_group": np.datetime64(pd[2], "us")}),
-                                 ChannelObject("g", "c", data, props_chan)])
-                w.write_segment([ChannelObject("g", "r", TimestampArray(raw), {"t_raw": raw_prop})])
-                w.write_segment([ChannelObject("g", "c", data[::-1].copy())])
-            detail = check_file(buf.getvalue(), ds, pd, py_us, raw, raw_prop)
+        case = {"op": "e2e", "data": random_datetimes(rng, n), "props": random_datetimes(rng, 3),
+                "py_us": rng.randrange(0, 4 * 10 ** 9 * 10 ** 6) + TDMS_EPOCH_US,
+                # raw timestamps with arbitrary fractions (not on the microsecond grid)
+                "raw": [[rng.randrange(-2 ** 40, 2 ** 40), rng.randrange(TWO64)] for _ in range(n)],
+                "raw_prop": [rng.randrange(-2 ** 40, 2 ** 40), rng.randrange(TWO64)]}
+        run_e2e(run, case)
+
+
+def run_e2e(run, case):
+    run.cov["evaluations"] += 1
+    run.count("end_to_end_files")
+    ds, pd, py_us = [int(x) for x in case["data"]], [int(x) for x in case["props"]], int(case["py_us"])
+    n = len(ds)
+    data = np.array(ds, dtype="int64").view("datetime64[us]")
+    # properties given as datetime64[us] scalars and as a datetime.datetime
+    py_dt = datetime.datetime(1970, 1, 1) + datetime.timedelta(microseconds=py_us)
+    props_root = {"t_root": np.datetime64(pd[0], "us")}
+    props_chan = {"t_chan": np.datetime64(pd[1], "us"), "t_py": py_dt}
+    raw = np.zeros(n, dtype=[("second_fractions", "<u8"), ("seconds", "<i8")])
+    raw["second_fractions"] = np.array([int(p[1]) for p in case["raw"]], dtype=np.uint64)
+    raw["seconds"] = np.array([int(p[0]) for p in case["raw"]], dtype=np.int64)
+    raw_prop = TdmsTimestamp(int(case["raw_prop"][0]), int(case["raw_prop"][1]))
+    try:
+        buf = io.BytesIO()
+        with TdmsWriter(buf) as w:
+            w.write_segment([RootObject(props_root), GroupObject("g", {"t_group": np.datetime64(pd[2], "us")}),
+                             ChannelObject("g", "c", data, props_chan)])
+            w.write_segment([ChannelObject("g", "r", TimestampArray(raw), {"t_raw": raw_prop})])
+            w.write_segment([ChannelObject("g", "c", data[::-1].copy())])
+        detail = check_file(buf.getvalue(), ds, pd, py_us, raw, raw_prop)
+        if detail is None:
+            # defragment: raw values preserved bit-exactly
+            dst = io.BytesIO()
+            buf.seek(0)
+            TdmsWriter.defragment(buf, dst)
+            detail = check_file(dst.getvalue(), ds, pd, py_us, raw, raw_prop)
+            if detail is not None:
+                detail = ("after defragment",) + tuple(detail)
+        if detail is None:
+            # the same raw values stored in a big-endian segment, read and defragmented
+            pairs = [(int(p[0]), int(p[1])) for p in case["raw"]]
+            prop = [int(x) for x in case["raw_prop"]]
+            be = be_timestamp_file(pairs, prop)
+            detail = check_be_file(be, pairs, prop)
             if detail is None:
-                # defragment: raw values preserved bit-exactly
                 dst = io.BytesIO()
-                buf.seek(0)
-                TdmsWriter.defragment(buf, dst)
-                detail = check_file(dst.getvalue(), ds, pd, py_us, raw, raw_prop)
+                TdmsWriter.defragment(io.BytesIO(be), dst)
+                detail = check_be_file(dst.getvalue(), pairs, prop)
                 if detail is not None:
                     detail = ("after defragment",) + tuple(detail)
-        except Exception as e:
-            detail = ("exception", repr(e))
-        if detail is None:
-            run.cov["distinct_nontrivial"] += 1
-        else:
-            key = "us-roundtrip" if "datetime" in detail[0] else "end-to-end"
-            report(run, key, "writer -> reader does not preserve timestamps: %r" % (detail,), case,
-                          actual=detail)
+    except Exception as e:
+        detail = ("exception", repr(e))
+    if detail is None:
+        run.cov["distinct_nontrivial"] += 1
+    else:
+        key = "us-roundtrip" if "datetime" in detail[0] else "end-to-end"
+        report(run, key, "writer -> reader does not preserve timestamps: %r" % (detail,), case, actual=detail)
 
 
 def check_file(content, ds, pd, py_us, raw, raw_prop):
@@ -627,8 +674,7 @@ def replay(run, case):
     elif op == "time_track":
         run_time_track(run, case)
     elif op == "e2e":
-        # the file content is a function of the seed: re-run the same stream
-        end_to_end(run, random.Random(run.seed ^ 0xE2E), 60)
+        run_e2e(run, case)
     else:
         print("replay: nothing to re-run for kind", op)
 
